@@ -18,7 +18,7 @@ RULE = ("bases enumerated (digit sub-spaces, disjoint blocks per shard: distinct
 ASSUMPTIONS = [
     "reference implementation vf/oracles/ref_checkdigit.py is correct (self-tested on published identifiers at start-up)",
     "known numbering-agency prefixes = the two-letter keys of ofxtools.lib.NUMBERING_AGENCIES",
-    "SEDOL 'fails validation' is observed through sedol2isin(), which asserts the check digit",
+    "SEDOL 'fails validation' is observed through sedol2isin(), which refuses a wrong check digit (any exception counts)",
 ]
 EXHAUSTIVE = {
     "quick": "all 10^6 all-digit SEDOL bases; one 10^6 block of all-digit CUSIP bases; all 676 two-letter ISIN prefixes",
